@@ -28,10 +28,28 @@ def gen_case(rng, idx, quick=True):
     forced_pat = None
     if len(KINDS) <= idx < len(KINDS) + 3 * len(TIME):
         t = idx - len(KINDS)
-        kinds = [TIME[t % len(TIME)]] + [k for k in kinds[1:] if k != TIME[t % len(TIME)]]
+        # a single column, so that has_nulls=False is legal and really reaches the time conversion
+        kinds = [TIME[t % len(TIME)]]
         forced_hn = [True, False, "infer"][t // len(TIME)]
         forced_pat = "some"
         n = max(n, 7)
+    # directed: a chunk of several pages whose missing values all sit in the early pages (one row group)
+    MULTI = ["Int64", "str", "float64", "dt_ms", "boolean", "cat_str"]
+    forced_page = None
+    b0 = len(KINDS) + 3 * len(TIME)
+    if b0 <= idx < b0 + len(MULTI):
+        kinds = [MULTI[idx - b0]]
+        forced_pat = "first"
+        forced_page = 64
+        n = [65, 200, 130][idx % 3]
+    # directed: dictionary-index pages holding a whole number of groups of 8 indices (or none), v1 and v2
+    CATS = [("cat_str", 8, "none", 2), ("cat_int", 64, "none", 2), ("cat_str", 16, "all", 2), ("cat_str", 8, "none", 1),
+            ("cat_int", 9, "first", 2), ("cat_str", 64, "none", 1)]
+    forced_version = None
+    b1 = b0 + len(MULTI)
+    if b1 <= idx < b1 + len(CATS):
+        k_, n, forced_pat, forced_version = CATS[idx - b1]
+        kinds = [k_]
     pats = {}
     df = pd.DataFrame({"rid": np.arange(n, dtype="int64")})
     for j, k in enumerate(kinds):
@@ -52,6 +70,8 @@ def gen_case(rng, idx, quick=True):
         opts["row_group_offsets"] = sorted(set([0] + [rng.randrange(0, n) for _ in range(rng.choice([1, 2]))]))
     elif r < 0.5:
         opts["row_group_offsets"] = rng.choice([1, 3, 8, 50, 10000])
+    if forced_page or forced_version:
+        opts.pop("row_group_offsets", None)
     hn = rng.choice([None, None, True, False, "infer", "list"])
     if forced_hn is not None:
         hn = forced_hn
@@ -85,6 +105,10 @@ def gen_case(rng, idx, quick=True):
     if wi is True and n and rng.random() < 0.5:
         df.index = pd.Index(np.arange(10, 10 + n, dtype="int64") * 3, name="myidx")
     g = {"page": rng.choice([None, None, None, 64, 300, 4096]), "version": rng.choice([1, 1, 2])}
+    if forced_page:
+        g["page"] = forced_page
+    if forced_version:
+        g["version"] = forced_version
     desc = {"rows": n, "kinds": kinds, "nulls": pats, "opts": {k: (v if not isinstance(v, (list, dict)) else str(v)[:60]) for k, v in opts.items()},
             "page_size": g["page"], "page_version": g["version"]}
     return {"df": df, "opts": opts, "globals": g, "desc": desc, "kinds": kinds, "pats": pats}
@@ -159,7 +183,7 @@ def spec_decode_many(ctx, blobs):
             out.append({"error": rep[4:400].replace("_", " ")})
             continue
         cols = [bytes.fromhex(c[1:]).decode() for c in parse_list(dd["cols"])]
-        out.append({"rows": int(dd["rows"]), "cols": cols, "meta": parse_list(dd["meta"]), "rgs": parse_list(dd["rgs"])})
+        out.append({"rows": int(dd["rows"]), "loose": int(dd.get("loose", 0)), "cols": cols, "meta": parse_list(dd["meta"]), "rgs": parse_list(dd["rgs"])})
     return out
 
 
